@@ -134,6 +134,31 @@ theorem stack_pathNd_eq_gen (n ta ax T : Nat) (x : Tensor α) :
         x.sliceAxis ta (stack_slice_start (i : Int) (T : Int) (n : Int)).toNat (stack_slice_stop (i : Int) (T : Int) (n : Int)).toNat
           (stack_slice_step (i : Int) (T : Int) (n : Int)).toNat) (ax : Int) := rfl
 
+/-- **`Stack.apply` as a whole on the source's arithmetic**: a stacker that `__init__` accepted (`stack_init_rejects = false`)
+computes `prepare` with the generated terms and then takes the 2-D or the N-D branch with the generated slices -/
+theorem stack_apply_eq_gen (n t : Int) (pm : Option (PadMode α)) (c : Stack α) (hc : Stack.new n t pm = .ok c)
+    (x : Tensor α) (axis : Int) (inPlace : Bool) :
+    stack_init_rejects n = false ∧
+    c.apply x axis inPlace =
+      (do let p ← Stack.prepare c x axis
+          let inPlace := inPlace || (c.padMode.isSome && x.shape.getD p.ta 0 % c.numVectors != 0)
+          if x.shape.length = 2 then Stack.path2d inPlace p.ta p.T p.nT p.nF p.x1
+          else Tensor.concatenate ((List.range c.numVectors).map fun (i : Nat) =>
+            p.x1.sliceAxis p.ta (stack_slice_start (i : Int) (p.T : Int) (c.numVectors : Int)).toNat
+              (stack_slice_stop (i : Int) (p.T : Int) (c.numVectors : Int)).toNat
+              (stack_slice_step (i : Int) (p.T : Int) (c.numVectors : Int)).toNat) (p.ax : Int)) ∧
+    0 < c.numVectors := by
+  rw [stack_new_eq_gen] at hc
+  by_cases h : stack_init_rejects n = true
+  · simp [h] at hc
+  · simp only [h] at hc
+    have hn : ¬ n < 1 := by simpa [stack_init_rejects] using h
+    refine ⟨by simpa using h, rfl, ?_⟩
+    injection hc with hc
+    subst hc
+    show 0 < n.toNat
+    omega
+
 /-- the statement-shape facts read off `Stack.apply` (guards, order of the 2-D branch, loop and concatenation axis) -/
 theorem stack_shape_facts : stack_statement_shape = true := rfl
 
